@@ -460,6 +460,145 @@ class SimEvent:
         return not to and self.flag
 
 
+class SimCondition:
+    """multiprocessing.Condition"""
+
+    def __init__(self, lock=None, *, ctx=None):
+        self.world = _w()
+        self.lock = lock if lock is not None else SimLock(recursive=True)
+        self.waiting = []
+        self.cid = self.world.n_locks
+        self.world.n_locks += 1
+
+    def __deepcopy__(self, memo):
+        return self
+
+    def acquire(self, *a, **k):
+        return self.lock.acquire(*a, **k)
+
+    def release(self):
+        return self.lock.release()
+
+    def __enter__(self):
+        return self.lock.__enter__()
+
+    def __exit__(self, *a):
+        return self.lock.__exit__(*a)
+
+    def wait(self, timeout=None):
+        w = self.world
+        me = w.current_proc()
+        if self.lock.owner is not me:
+            raise AssertionError("must acquire() condition before using wait()")
+        ticket = [False]
+        self.waiting.append(ticket)
+        saved = self.lock.count
+        w.seam(Op("cond_release", "c%d" % self.cid))
+        self.lock.owner = None
+        self.lock.count = 0
+        to = w.seam(
+            Op("cond_wait", "c%d" % self.cid, can_run=lambda: ticket[0],
+               can_timeout=(lambda: not ticket[0]) if timeout is not None else None, timeout=timeout)
+        )
+        if not ticket[0] and ticket in self.waiting:
+            self.waiting.remove(ticket)
+        w.seam(Op("cond_reacquire", "c%d" % self.cid, can_run=lambda: self.lock.owner is None))
+        self.lock.owner = me
+        self.lock.count = saved
+        return bool(ticket[0]) and not to
+
+    def wait_for(self, predicate, timeout=None):
+        result = predicate()
+        waited = 0.0
+        while not result:
+            if timeout is not None and waited >= timeout:
+                break
+            ok = self.wait(timeout)
+            if timeout is not None and not ok:
+                waited = timeout
+            result = predicate()
+        return result
+
+    def notify(self, n=1):
+        w = self.world
+        if self.lock.owner is not w.current_proc():
+            raise AssertionError("lock is not owned")
+        w.seam(Op("cond_notify", "c%d n=%d" % (self.cid, n)))
+        for t in self.waiting[:n]:
+            t[0] = True
+        del self.waiting[:n]
+
+    def notify_all(self):
+        self.notify(len(self.waiting) or 1)
+
+
+class SimBarrier:
+    def __init__(self, parties, action=None, timeout=None, *, ctx=None):
+        self.world = _w()
+        self.parties = parties
+        self.count = 0
+        self.generation = 0
+        self.bid = self.world.n_locks
+        self.world.n_locks += 1
+
+    def __deepcopy__(self, memo):
+        return self
+
+    def wait(self, timeout=None):
+        w = self.world
+        w.seam(Op("barrier_arrive", "b%d" % self.bid))
+        gen = self.generation
+        idx = self.count
+        self.count += 1
+        if self.count == self.parties:
+            self.count = 0
+            self.generation += 1
+            return idx
+        to = w.seam(Op("barrier_wait", "b%d" % self.bid, can_run=lambda: self.generation != gen,
+                       can_timeout=(lambda: self.generation == gen) if timeout is not None else None, timeout=timeout))
+        if to:
+            import threading
+
+            raise threading.BrokenBarrierError
+        return idx
+
+
+class SimArray:
+    """multiprocessing.Array / RawArray: shared flat array"""
+
+    def __init__(self, typecode_or_type, size_or_initializer, *, lock=True, ctx=None):
+        self.world = _w()
+        if isinstance(size_or_initializer, int):
+            self._a = [0] * size_or_initializer
+        else:
+            self._a = list(size_or_initializer)
+        self._lock = SimLock(recursive=True) if lock else None
+
+    def __deepcopy__(self, memo):
+        return self
+
+    def __len__(self):
+        return len(self._a)
+
+    def __getitem__(self, i):
+        self.world.seam(Op("array_read", ""))
+        return self._a[i]
+
+    def __setitem__(self, i, v):
+        self.world.seam(Op("array_write", ""))
+        self._a[i] = v
+
+    def __iter__(self):
+        self.world.seam(Op("array_read", ""))
+        return iter(list(self._a))
+
+    def get_lock(self):
+        return self._lock
+
+    def get_obj(self):
+        return self
+
+
 class SimValue:
     """multiprocessing.Value / RawValue: one shared cell."""
 
@@ -787,6 +926,10 @@ class SimWorld:
         task = proc.task
         at_exit = task.pending is not None and task.pending.kind in ("exit-flush", "exit")
         delivered_all = at_exit and proc.target_done and lost == 0
+        if getattr(proc, "pool", None) is not None:
+            # a pool worker has a batch only while it runs a task: dying idle (and without a pool lock)
+            # loses nothing
+            delivered_all = getattr(proc, "running_task", None) is None and not lock_leaked
         proc.dead = True
         proc._exitcode = code
         proc.died_abnormally = True
@@ -978,9 +1121,7 @@ def fault_from_json(d):
 # the fake module
 # ---------------------------------------------------------------------------------------------
 
-_UNSUPPORTED = [
-    "Manager", "Array", "RawArray", "Barrier", "Condition", "BoundedSemaphore", "connection", "shared_memory", "managers",
-]
+_UNSUPPORTED = ["Manager", "connection", "shared_memory", "managers"]
 
 
 def _unsupported(name):
@@ -1016,6 +1157,11 @@ def make_module():
     m.RLock = lambda: SimLock(recursive=True)
     m.Semaphore = lambda value=1: SimSemaphore(value)
     m.Event = lambda: SimEvent()
+    m.Condition = lambda lock=None: SimCondition(lock)
+    m.Barrier = SimBarrier
+    m.BoundedSemaphore = lambda value=1: SimSemaphore(value)
+    m.Array = SimArray
+    m.RawArray = lambda t, s: SimArray(t, s, lock=False)
     m.Value = SimValue
     m.RawValue = lambda t, *a: SimValue(t, *a, lock=False)
     m.cpu_count = lambda: _w().cpu_count
